@@ -70,6 +70,35 @@ def escape_pair(ctx, rule, which, check_spec=False):
     uri = which == 'uri'
     delim = pipe.prefix
     ctx.count('escape phases (%s)' % which, len(pipe.phases))
+    # a fast path that emits the text raw must only be taken for texts made of characters the pipeline leaves alone
+    for rc, how, fmt, node in getattr(pipe, 'fast', []):
+        try:
+            pr = L.PyRegex(rc.pattern, rc.flags)
+            if how == 'search' or not pr.anchored_start and how != 'fullmatch' and False:
+                raise Unsupported('fast path uses %s' % how)
+            lang = pr.full() if how == 'fullmatch' else pr.match_lang()
+            must = ()
+            for ivs, t in classes:
+                ident = t is None or t == [('ident',)]
+                if not ident:
+                    must = L.iv_union(must, ivs)
+            bad = L.find_common(L.build(lang), L.build(L.rcat(L.rany_star(), L.rset(must), L.rany_star())))
+        except (Unsupported, AttributeError) as e:
+            ctx.error(rule, '%s: fast path `%s`: %s' % (fname, norm(node.test), e))
+            continue
+        if fmt != pipe.prefix + '%s' + pipe.suffix:
+            ctx.error(rule, '%s: fast path wraps the text as %r, the pipeline as %r' % (fname, fmt, pipe.prefix + '%s' + pipe.suffix))
+        elif bad is not None:
+            w = ''.join(chr(c) for c in bad)
+            ctx.violation(rule, '%s::%s' % (FZ, fname), norm(node.test),
+                          'parse(dump(the string %r)): `%s` accepts it%s, so it is written raw -- %r reaches the document '
+                          'unescaped and the line/cell structure of the grid is broken (or the text comes back different)'
+                          % (w, norm(node.test), ' (`$` also matches before one final newline)' if w.endswith('\n') else '', w),
+                          'the raw fast path of %s is taken for texts containing characters the escaping pipeline must rewrite'
+                          % fname, file=FZ, line=node.lineno, engine='E5')
+        else:
+            ctx.ob(rule, '%s: the raw fast path `%s` only admits characters the pipeline leaves unchanged' % (fname, rc.pattern),
+                   True, '%s:%d' % (FZ, node.lineno))
     # refine the partition with the reader's distinguished characters and the hex-width boundaries
     special = {ord(sp.bs)} | {ord(c) for c in sp.uni} | {ord(c) for c in sp.simple} | {ord(c) for c in sp.uri_keep}
     special |= {ord(c) for c in (pipe.prefix + pipe.suffix)} | {10, 13, 0x20, 0x7f}
